@@ -45,6 +45,11 @@ class SendProto(Suite):
                         e["size"] = 0
                         e.pop("hole", None)
                         e["openerr"] = True
+            if small_reads:
+                # (1..100-byte reads: no sparse tails of tens of kilobytes, the acceptor's history grows with every DATA event)
+                for e in tree:
+                    if e.get("hole", 0) > 4096:
+                        e["hole"] = 1
             # ids of regular entries (incl. hard links): position in the view
             regs = [i for i, e in enumerate(tree) if e["t"] in ("file", "hardlink")]
             # hard links to non-regular sources are not regular
@@ -232,8 +237,8 @@ class RecvProto(Suite):
                                      file_sizes=(0, 1, 5, 100, 4096, 32767, 32768, 32769, 70000, 1200000 if rng.random() < 0.1 else 100))
             r = rng.random()
             dst = [] if r < 0.4 or wide else gen.mutate_disk_tree(rng, tree) if r < 0.85 else gen.disk_tree(rng, 10, 3, types=("dir", "file", "symlink"))
-            big = any(e.get("size", 0) > 100000 for e in tree)
-            chunk = [rng.choice([1, 2, 7, 100, 1000] if not big and sum(e.get("size", 0) for e in tree) < 20000 else [4096, 32768, 100000, 1048576])
+            big = any(e.get("size", 0) + e.get("hole", 0) > 100000 for e in tree)
+            chunk = [rng.choice([1, 2, 7, 100, 1000] if not big and sum(e.get("size", 0) + e.get("hole", 0) for e in tree) < 20000 else [4096, 32768, 100000, 1048576])
                      for _ in range(rng.randint(1, 3))]
             ref = {"chunk": chunk, "interleave": rng.choice(["fifo", "rr", "random", "reverse"]), "eager": rng.random() < 0.5 and not wide,
                    "seed": rng.randrange(1 << 30)}
@@ -457,6 +462,27 @@ class Hostile(Suite):
                         st["size"] = 0
                         st["ln"] = hx(rng.choice([b"nonexistent", b"../../outside/f", b"/outside/f", b"..", b"zzz", b"../sib/h", b"../../sent"]))
                         script.insert(k + 1, {"t": "STAT", "stat": st})
+                        if rng.random() < 0.5 and all(x["t"] == "STAT" and x.get("stat") for x in script):
+                            # ... with a decoy: the escaping link name, cleaned against the root, names an entry that WAS sent before
+                            # ("../../sent" -> "sent"); joined to dest it still names the sentinel outside
+                            L = rng.choice([b"../../sent", b"../sib/h", b"../../../outside/f", b"a/../../sib/h"])
+                            P = [c for c in L.split(b"/") if c not in (b"..", b"a")]
+                            have = {x["stat"]["p"] for x in script if x["t"] == "STAT" and x.get("stat")}
+                            top = P[0]
+                            if hx(top) not in have and not any(bytes.fromhex(h).startswith(top + b"/") for h in have):
+                                for d in range(1, len(P)):
+                                    ds = gen.rand_stat(rng, b"/".join(P[:d]), True)
+                                    ds.setdefault("x", [])
+                                    script.append({"t": "STAT", "stat": ds})
+                                fs_ = gen.rand_stat(rng, b"/".join(P), False)
+                                fs_.update({"mode": 0o644, "size": 3, "ln": "", "dmaj": 0, "dmin": 0})
+                                fs_.setdefault("x", [])
+                                script.append({"t": "STAT", "stat": fs_})
+                                st2 = dict(st)
+                                st2["p"] = hx(b"zzlink")
+                                st2["ln"] = hx(L)
+                                script.append({"t": "STAT", "stat": st2})
+                                script.sort(key=lambda x: gen.pathkey(bytes.fromhex(x["stat"]["p"])))
                     elif m == 6:
                         # DATA for an id that can never be requested (a directory's index / beyond the sequence)
                         # (the id is filled in after all mutations: the STAT index of a directory, or one beyond the sequence)
